@@ -1032,7 +1032,15 @@ def _rechunk_to_merge_in_boundary_chunks(
     for padded_arg, original_arg in zip(padded_args, original_args):
         # vector components are passed as {axis: array}
         original_arg = _maybe_unpack_vector_component(original_arg)
-        original_arg_chunks = original_arg.variable.chunksizes
+        if padded_arg.chunks is None:
+            # an in-memory argument next to lazy ones has no chunks to merge
+            rechunked_padded_args.append(padded_arg)
+            continue
+        # (an in-memory argument that became lazy through its lazy partner component
+        # counts as a single chunk)
+        original_arg_chunks = original_arg.variable.chunksizes or {
+            dim: (size,) for dim, size in original_arg.sizes.items()
+        }
         merged_boundary_chunks = _get_chunk_pattern_for_merging_boundary(
             grid,
             padded_arg,
